@@ -19,7 +19,10 @@ Dust == NLit(1000)
 RECURSIVE SumFirst(_, _)
 SumFirst(utxos, k) == IF k = 0 THEN NZero ELSE NAdd(SumFirst(utxos, k - 1), utxos[k].sat)
 Total(utxos)       == SumFirst(utxos, Len(utxos))
-Requested(utxos, p) == NDiv(NMul(Total(utxos), NLit(p.num)), NLit(p.den))
+Requested(utxos, p) == NDiv(NMul(Total(utxos), NLit(p.num)), NLit(p.den))          \* floor(fraction * total)
+(* the property does not say how a fractional satoshi of "fraction x total" is rounded: floor and ceiling are both "the requested amount" *)
+RequestedCeil(utxos, p) == LET f == Requested(utxos, p)
+                           IN IF NMul(f, NLit(p.den)) = NMul(Total(utxos), NLit(p.num)) THEN f ELSE NAdd(f, NLit(1))
 
 (* the selection loop: take outputs in the reported order until the running total covers the request *)
 RECURSIVE SelectFrom(_, _, _)
@@ -53,11 +56,12 @@ OutSum(t, i) == IF i = 0 THEN NZero ELSE NAdd(OutSum(t, i - 1), ValOf(t.outs[i])
 (* returns "ok" or the name of the first clause of the property that fails *)
 SendClause(t, utxos, p) ==
     IF ~InputsReported(t, utxos) THEN "spends-unreported-or-duplicate-output"
+    ELSE IF Len(t.outs) < 1 \/ t.outs[1].script # p.recip THEN "recipient-output-wrong"
     ELSE LET inSum == InSum(t, utxos, Len(t.ins))
-             req   == Requested(utxos, p) IN
+             req   == NAdd(ValOf(t.outs[1]), p.fee) IN          \* the amount the transaction treats as requested
       IF t.version # p.version \/ t.locktime # p.lock THEN "version-or-locktime-not-as-requested"
+      ELSE IF req # Requested(utxos, p) /\ req # RequestedCeil(utxos, p) THEN "recipient-output-wrong"
       ELSE IF NLt(inSum, req) THEN "inputs-do-not-cover-requested-amount"
-      ELSE IF Len(t.outs) < 1 \/ t.outs[1] # TxOut(Sat8(NSub(req, p.fee)), p.recip) THEN "recipient-output-wrong"
       ELSE IF NLe(Dust, NSub(inSum, req)) /\ (Len(t.outs) # 2 \/ t.outs[2] # TxOut(Sat8(NSub(inSum, req)), p.change))
            THEN "change-output-wrong"
       ELSE IF NLt(NSub(inSum, req), Dust) /\ Len(t.outs) # 1 THEN "unexpected-extra-output"
